@@ -72,6 +72,9 @@ def spec_check(ops, obs):
                 if r[0] == 'name':
                     cur = ('preset', r[1])
                 elif r[0] == 'held' and r[1] < len(held):
+                    why = definitely_invalid(held[r[1]])
+                    if why:
+                        fails.append(('an update that must be rejected with ValueError (%s) was accepted' % why, i))
                     cur = [list(kv) for kv in held[r[1]][1]]
                 else:
                     fails.append(('junk argument must be rejected', i))
@@ -79,6 +82,27 @@ def spec_check(ops, obs):
         if isinstance(cur, tuple):      # resolve preset lazily
             pass
     return fails
+
+
+def definitely_invalid(h):
+    """the rejections the property names, judged without the library: missing '?', a capacity that is negative or
+    not an integer, a key that is not a string or contains a character no atom spelling can contain"""
+    kind, c = h
+    if kind != 'dict':
+        return 'wrong type'
+    keys = [kv[0] for kv in c]
+    if '?' not in keys:
+        return "missing '?'"
+    for k, v in c:
+        if not isinstance(k, str):
+            return 'key is not a string'
+        if not isinstance(v, int):
+            return 'capacity of %r is not an integer' % (k,)
+        if v < 0:
+            return 'capacity of %r is negative' % (k,)
+        if k != '?' and (k == '' or any(ch not in 'ABCDEFGHIJKLMNOPQRSTUVWXYZabcdefghijklmnopqrstuvwxyz0123456789+-' for ch in k)):
+            return 'malformed key %r' % (k,)
+    return None
 
 
 def dict_eq(a, b):
